@@ -14,6 +14,7 @@ import json
 from vsim import pool as cpool
 from vsim.engine import canon_violations, classify_diff, digest, multiset_diff
 from vsim.ops import parse_cli_output
+from vsim.seams import read_tap
 from vsim.simpool import SHAPES, schedule_summary
 from vsim.tape import Tape, mix
 from vsim.world import World
@@ -72,6 +73,8 @@ def gen(run_seed: int, tier: str) -> dict:
             sc["targets"] = t.shuffle(dirs + top, "order") or ["."]
         else:
             sc["targets"] = []  # defaults to "."
+    sc["xval"] = "real-pool" if t.chance(1, 10, "xval") else ("subprocess" if entry == "cli" and t.chance(1, 12, "xsub") else None)
+    sc["exposure"] = {"kill_item": t.draw(F, "kill")} if t.chance(1, 16, "expo") else None
     return sc
 
 
@@ -199,6 +202,35 @@ def _execute(zy, sc: dict, W: World) -> dict:
                                       n_seq=len(a), n_par=len(b), schedule=summ))
         if ea != eb:
             failures.append(_fail(f"exit-status entry={entry}", sequential=ea, parallel=eb))
+    if sc.get("xval") == "real-pool" and seq["ok"] and par["ok"]:
+        rp = _call(zy, W, sc, parallel=True, pool="real")
+        stats["xval_real_pool"] = 1
+        if not rp["ok"]:
+            failures.append(_fail(f"real-pool-{rp.get('kind')} exc={rp.get('exc_type')} entry={entry}", exc=rp.get("exc")))
+        else:
+            c, ec = _observable(W, sc, rp["value"])
+            if c != Cparts["seq"] or ec != Cparts["exit"][0]:
+                oa, ob = multiset_diff(Cparts["seq"], c)
+                failures.append(_fail(f"real-pool-differs entry={entry}", only_sequential=oa[:6], only_parallel=ob[:6]))
+    if sc.get("xval") == "subprocess" and seq["ok"] and par["ok"]:
+        stats["xval_subprocess"] = 1
+        r = _subprocess_pair(W, sc)
+        if r is not None:
+            failures.append(_fail(f"real-cli-differs entry=cli", **r))
+    if sc.get("exposure") and seq["ok"] and par["ok"] and not stats.get("fell_back"):
+        sc_k = copy.deepcopy(sc)
+        sc_k["knobs"]["kill"] = {"item": sc["exposure"]["kill_item"]}
+        kp = _call(zy, W, sc_k, parallel=True)
+        expo = {"fired": 0}
+        if kp["ok"]:
+            expo["fired"] = kp["value"]["counters"].get("fault.worker_killed", 0)
+            c, ec = _observable(W, sc, kp["value"])
+            expo["exit"] = ec
+            expo["lost_violations"] = len(multiset_diff(Cparts["seq"], c)[0])
+            expo["swallowed_records"] = len(read_tap(str(W.root / "tap-par.jsonl")))
+        else:
+            expo["raised"] = kp.get("exc_type") or kp.get("kind")
+        stats["exposure_kill"] = expo
     # de-duplicate signatures
     seen, uniq = set(), []
     for f in failures:
@@ -207,6 +239,29 @@ def _execute(zy, sc: dict, W: World) -> dict:
             uniq.append(f)
     return {"failures": uniq, "stats": stats, "H": digest(Hparts), "C": digest(Cparts), "scenario": sc_out,
             "harness": harness}
+
+
+def _subprocess_pair(W: World, sc: dict):
+    """Real `python -m src.cli` processes, real pool, real walk order (schedule not controlled)."""
+    import os
+    import subprocess
+    import sys
+    env = dict(os.environ, HOME=str(W.home), TMPDIR=str(W.tmp), PYTHONHASHSEED=str(sc.get("hashseed", 0)))
+    outs = []
+    for parallel in (False, True):
+        argv = [sys.executable, "-m", "src.cli", sc["cmd"], "--format", sc["fmt"]]
+        if not sc["recursive"]:
+            argv.append("--no-recursive")
+        if parallel:
+            argv.append("--parallel")
+        argv += _target_paths(W, sc)
+        r = subprocess.run(argv, cwd=str(W.proj), env=env, capture_output=True, text=True, timeout=600)
+        kind, items, total = parse_cli_output(sc["fmt"], W.canon(r.stdout))
+        outs.append((r.returncode, items))
+    if outs[0] != outs[1]:
+        oa, ob = multiset_diff(outs[0][1], outs[1][1])
+        return {"exit": [outs[0][0], outs[1][0]], "only_sequential": oa[:6], "only_parallel": ob[:6]}
+    return None
 
 
 def _cli_item_fields(x: str) -> list:
@@ -293,6 +348,17 @@ def shrink(sc: dict):
         yield c
 
 
+def _exposure(runs):
+    ex = [r["stats"]["exposure_kill"] for r in runs if r["stats"].get("exposure_kill")]
+    fired = [e for e in ex if e.get("fired")]
+    return {"worker_killed_mid_item": {"injected": len(fired),
+                                       "exit_0_or_1_with_lost_violations": sum(1 for e in fired if e.get("lost_violations")),
+                                       "lost_violations_total": sum(e.get("lost_violations", 0) for e in fired),
+                                       "swallowed_log_records": sum(e.get("swallowed_records", 0) for e in fired),
+                                       "raised": sum(1 for e in fired if e.get("raised")),
+                                       "note": "outside the statement (no faults granted): counted, never a VIOLATION"}}
+
+
 def evidence(outputs: list[dict], tier: str, seed: int) -> dict:
     runs = [r for o in outputs for r in o["runs"]]
     nontrivial = [r for r in runs if not r["stats"].get("trivial")]
@@ -318,6 +384,8 @@ def evidence(outputs: list[dict], tier: str, seed: int) -> dict:
         "simulated_events": sum(r["stats"].get("events", 0) for r in runs),
         "worker_forks": sum(r["stats"].get("forks", 0) for r in runs),
         "worker_tasks": sum(r["stats"].get("tasks", 0) for r in runs),
+        "traces_validated_against_impl": sum(r["stats"].get("xval_real_pool", 0) + r["stats"].get("xval_subprocess", 0) for r in runs),
+        "exposure_probes": _exposure(runs),
         "simulated_time": "not applicable: the code under test reads no clock; reported as simulated events",
         "fault_kinds_fired": {"none": "the statement grants no faults; see exposure_probes"},
         "real_vs_stub": {"real": "src/ (CLI, orchestrator, rules), click, tree-sitter, sqlite3, fork/pipe/pickle boundaries, tmpfs tree",
